@@ -212,3 +212,17 @@ mod test {
         assert_eq!("9440e64e095ff718c1926110fd811e64948984c9dee7ef860feb4d5d", hex::encode(&res))
     }
 }
+
+#[cfg(feature = "verif-hooks")]
+pub mod verif {
+    pub mod tcp {
+        pub use super::super::tcp::ClientCodec;
+        pub use super::super::tcp::new_codec;
+    }
+    pub mod udp {
+        pub use super::super::udp::ClientCodec;
+        pub use super::super::udp::new_key;
+        pub use super::super::udp::to_inbound_recv;
+        pub use super::super::udp::to_outbound_send;
+    }
+}
